@@ -54,11 +54,12 @@ T0 = 1700000000.0
 
 
 # ------------------------------------------------------------------------------------------------ generator
-_host = st.sampled_from(["example.com", "www.example.org", "a.b.c.example", "localhost", "192.0.2.7", "127.0.0.1", "::1",
-                         "2001:db8::2", "xn--bcher-kva.example", "bücher.example", "EXAMPLE.com"])
-_seg = st.one_of(st.sampled_from(["", "a", "index.html", "%20x", "%E2%82%AC", "a+b", "€", "café", "a;b", "..", "~u", "a=b"]),
+_host = st.sampled_from(["example.com", "www.example.org", "a.b.c.example", "localhost", "192.0.2.7", "127.0.0.1", "example.com",
+                         "www.example.org", "h-1.example.net", "10.0.0.1", "sub.domain.example.co.uk", "example.com", "::1", "2001:db8::2",
+                         "bücher.example"])
+_seg = st.one_of(st.sampled_from(["", "a", "index.html", "%20x", "%E2%82%AC", "a+b", "a;b", "..", "~u", "a=b", "api", "v1", "%2F", "a%00b", "€", "café"]),
                  st.text(alphabet="abcdefghijklmnopqrstuvwxyz0123456789-._", max_size=6))
-_q = st.one_of(st.sampled_from(["", "?", "?a=b", "?a=b&a=c", "?q=%C3%A9", "?x", "?a=b+c&d=%26", "?u=é", "?a=1#frag"]),
+_q = st.one_of(st.sampled_from(["", "", "?a=b", "?a=b&a=c", "?q=%C3%A9", "?x", "?a=b+c&d=%26", "?a=1#frag", "?a=&b", "?%20=%20", "?", "?u=é"]),
                st.lists(st.tuples(st.text(alphabet="abcxyz", min_size=1, max_size=3), st.text(alphabet="abc123", max_size=3)), min_size=1,
                         max_size=3).map(lambda kv: "?" + "&".join("%s=%s" % p for p in kv)))
 _path = st.tuples(st.lists(_seg, min_size=0, max_size=3), _q).map(lambda t: "/" + "/".join(t[0]) + t[1])
@@ -144,7 +145,8 @@ def _body_bytes(b):
     if b is None:
         return b"", None, []
     if b["kind"] == "binary":
-        return b["data"], b["ctype"], ["binary-body"]
+        bomlike = b["data"].startswith((b"\xef\xbb\xbf", b"\xff\xfe", b"\xfe\xff", b"\x00\x00\xfe\xff"))
+        return b["data"], b["ctype"], ["binary-body"] + (["bom-like-binary"] if bomlike else [])
     cs = b["charset"]
     labels = []
     try:
@@ -157,6 +159,8 @@ def _body_bytes(b):
     if b["bom"] and (cs or "utf-8").lower() in ("utf-8",):
         data = b"\xef\xbb\xbf" + data
         labels.append("bom")
+    elif data.startswith((b"\xff\xfe", b"\xfe\xff")):
+        labels.append("bom")  # the utf-16 codec writes a BOM
     ct = b["ctype"]
     if ct is not None and cs and b["declare"]:
         ct = "%s; charset=%s" % (ct, cs)
@@ -182,7 +186,19 @@ def to_desc(x):
     ver = x["version"]
     if ver != "HTTP/1.1":
         labels.append("version:" + ver)
-    hp = _hostport(scheme, host, x["port"])
+    try:
+        wire_host = host.encode("idna").decode("ascii") if any(ord(c) > 127 for c in host) else host
+    except UnicodeError:
+        wire_host = host
+    hp = _hostport(scheme, wire_host, x["port"])
+    if wire_host != host:
+        labels.append("idn-host")
+    if ":" in host:
+        labels.append("ipv6-host")
+    if any(ord(c) > 127 for c in x["path"]):
+        labels.append("non-ascii-target")
+    if x["path"].endswith("?") or "?#" in x["path"]:
+        labels.append("empty-query")
     rq_body, rq_ct, l1 = _body_bytes(x["req_body"])
     req_headers = []
     if ver == "HTTP/1.1":
@@ -228,10 +244,7 @@ def to_desc(x):
     names = [n.lower() for n, _ in req_headers] + ["|"] + [n.lower() for n, _ in resp_headers]
     if len(set(names)) != len(names):
         labels.append("duplicate-header")
-    try:
-        host_attr = host.encode("idna").decode("ascii") if any(ord(c) > 127 for c in host) else host
-    except UnicodeError:
-        host_attr = host
+    host_attr = host
     rv = ver if x["resp_version_same"] else "HTTP/1.1"
     desc = {
         "type": "http",
@@ -268,7 +281,34 @@ def _decoded(msg):
         return msg.raw_content
 
 
-def check_case(case, ctx):
+class Probe:
+    """minimal ctx stand-in used to re-run single exchanges"""
+
+    def __init__(self):
+        self.fails = []
+
+    def fail(self, bucket, msg=""):
+        self.fails.append((bucket, msg))
+
+    def nt(self, *a, **k):
+        pass
+
+    def cls(self, *a, **k):
+        pass
+
+
+def _first(labels, order, default):
+    for o in order:
+        if any(l == o or l.startswith(o + ":") for l in labels):
+            return o
+    return default
+
+
+_IMPORT_RISK = ("ipv6-host", "non-ascii-target", "idn-host", "latin1-header")
+_BODY_CAUSE = ("bom", "bom-like-binary", "in-band-charset", "charset-undeclared", "charset", "binary-body", "coded")
+
+
+def check_case(case, ctx, top=True):
     built = [to_desc(x) for x in case]
     flows = [fg.build(d) for d, _ in built]
     try:
@@ -279,10 +319,22 @@ def check_case(case, ctx):
     try:
         imported = list(FlowReader(io.BytesIO(har)).stream())
     except exceptions.FlowReadException as e:
-        labels = sorted({l for _, ls in built for l in ls})
+        if len(case) > 1:
+            # one exchange that cannot be imported makes the whole file unreadable: attribute the failure to the
+            # exchange(s) that fail on their own and still check the others
+            blamed = False
+            for x in case:
+                sub = Probe()
+                check_case([x], sub, top=False)
+                for b, m in sub.fails:
+                    ctx.fail(b, m)
+                    blamed = blamed or b.startswith("import-fails")
+            if not blamed:
+                ctx.fail("import-fails-only-together", "%d exchanges import one by one but not as one file: %r" % (len(case), e.__cause__ or e.__context__))
+            return
+        labels = built[0][1]
         cause = e.__cause__ or e.__context__
-        ctx.fail("import-fails:%s:%s" % (type(cause).__name__ if cause else "?", "latin1-header" if "latin1-header" in labels else "other"),
-                 "cause=%r labels=%r" % (cause, labels))
+        ctx.fail("import-fails:" + _first(labels, _IMPORT_RISK, "other"), "cause=%r labels=%r" % (cause, sorted(labels)))
         return
     except Exception as e:
         ctx.fail("import-crash:%s@%s" % (type(e).__name__, repo_frame(e)), repr(e))
@@ -297,16 +349,15 @@ def check_case(case, ctx):
                 ctx.cls(l)
         else:
             ctx.cls("plain")
-        cl = "+".join(sorted({l.split(":")[0] for l in labels if l.split(":")[0] in
-                              ("charset", "bom", "in-band-charset", "charset-undeclared", "binary-body", "coded", "latin1-header")})) or "plain"
         if not isinstance(g, http.HTTPFlow) or g.response is None:
             ctx.fail("imported-not-http-exchange", repr(g))
             continue
+        rl = [l[4:] for l in labels if l.startswith("req-")]
         if g.request.method != f.request.method:
             ctx.fail("method", "%r -> %r" % (f.request.method, g.request.method))
         if g.request.pretty_url != f.request.pretty_url:
-            ctx.fail("url:" + ("idn" if any(ord(c) > 127 for c in x["host"]) else "ipv6" if ":" in x["host"] else "other"),
-                     "%r -> %r" % (f.request.pretty_url, g.request.pretty_url))
+            why = _first(labels, ("idn-host", "ipv6-host", "empty-query"), "other")
+            ctx.fail("url:" + why, "%r -> %r" % (f.request.pretty_url, g.request.pretty_url))
         elif g.request.url != f.request.url:
             ctx.fail("url-attr", "%r -> %r" % (f.request.url, g.request.url))
         if _ver(g.request.http_version) != _ver(f.request.http_version):
@@ -315,11 +366,21 @@ def check_case(case, ctx):
             ctx.fail("http-version:response:" + f.response.http_version, "%r -> %r" % (f.response.http_version, g.response.http_version))
         a, b = _fields(f.request.headers), _fields(g.request.headers)
         if a != b:
-            ctx.fail("request-headers:" + ("latin1" if "latin1-header" in labels else "other"), "%r -> %r" % (a, b))
+            why = "idn-host" if "idn-host" in labels else None
+            if why is None:
+                # which field changed?
+                if len(a) == len(b):
+                    changed = [x1[0].lower().decode("latin-1") for x1, x2 in zip(a, b) if x1 != x2]
+                elif len(b) > len(a) and b[:len(a)] == a:
+                    changed = ["+" + n.lower().decode("latin-1") for n, _ in b[len(a):]]
+                else:
+                    changed = ["<fields-lost-or-reordered>"]
+                why = "+".join(sorted(set(changed))) + ":" + _first(rl, _BODY_CAUSE, "text" if x["req_body"] else "nobody")
+            ctx.fail("request-headers:" + why, "%r -> %r" % (a, b))
         if x["method"] in ("POST", "PUT", "PATCH"):
             a, b = _decoded(f.request), _decoded(g.request)
             if a != b:
-                ctx.fail("request-body:" + "+".join(sorted({l[4:].split(":")[0] for l in labels if l.startswith("req-")}) or ["text"]), "%r -> %r" % (a[:80], (b or b"")[:80]))
+                ctx.fail("request-body:" + _first(rl, _BODY_CAUSE, "text" if x["req_body"] else "nobody"), "ctype=%r %r -> %r" % (f.request.headers.get("content-type"), a[:80], (b or b"")[:80]))
         if g.response.status_code != f.response.status_code:
             ctx.fail("status", "%r -> %r" % (f.response.status_code, g.response.status_code))
         a, b = _fields(f.response.headers), _fields(g.response.headers)
@@ -327,4 +388,4 @@ def check_case(case, ctx):
             ctx.fail("response-headers", "%r -> %r" % (a, b))
         a, b = _decoded(f.response), _decoded(g.response)
         if a != b:
-            ctx.fail("response-body:" + cl, "ctype=%r %r -> %r" % (f.response.headers.get("content-type"), a[:80], (b or b"")[:80]))
+            ctx.fail("response-body:" + _first(labels, _BODY_CAUSE, "text"), "ctype=%r %r -> %r" % (f.response.headers.get("content-type"), a[:80], (b or b"")[:80]))
